@@ -52,7 +52,9 @@ def load():
         for k, v in getattr(m, "NATIVES", {}).items():
             reg.natives[k] = v
         for spec in getattr(m, "SPECS", []):
-            for var in spec.variants:
+            from hexvc.indicators import SPEC_REGISTRY
+            SPEC_REGISTRY[spec.cls] = spec
+            for var in list(spec.variants) + [dict(spec.variants[0], mode="index")]:
                 vname = ",".join(f"{k}={v}" for k, v in var.items())
                 reg.ind_tasks[spec.cls + (f"[{vname}]" if vname else "")] = (spec, var)
     meta = importlib.import_module("contracts.meta")
